@@ -616,27 +616,38 @@ def run(ctx: Ctx) -> Result:
                       "notify_all/release without the lock).  A case is non-trivial if a wait() really "
                       "suspended (Condition), a set() met waiters or a cancellation landed inside an "
                       "operation (Event), or an operation was refused; distinct = distinct event traces")
-    corpus = [c for c in load_corpus("C11")]
-    cases: list[dict] = []
     mw = 4 if ctx.tier == "quick" else 6
-    n_cond = ctx.n(900, 36000)
-    n_dir = ctx.n(600, 12000)
-    n_ev = ctx.n(500, 12000)
-    for _ in range(n_cond):
-        cases.append(gen_cond_case(ctx.rng, mw))
-    cases += directed_cond_cases(ctx.rng, mw, n_dir)
     mt, mo = (4, 6) if ctx.tier == "quick" else (6, 8)
-    for _ in range(n_ev):
-        cases.append(gen_event_case(ctx.rng, mt, mo))
-    ctx.rng.shuffle(cases)
-    if ctx.tier == "thorough" and ctx.budget == 1.0:
-        cases += list(enum_directed(mw))
-        res.stats["enumerated_directed_timings"] = True
-    cases = corpus + cases
-    for i in range(0, len(cases), 400):
-        run_cases(cases[i: i + 400], res)
-        if ctx.time_left() < 0:
-            break
+    # cases are generated lazily, one batch at a time (the failing-input search multiplies the
+    # counts by 8; nothing is materialised up front), mixing the three generators 9:6:5 / 3:1:1
+    n_total = min(ctx.n(2000, 60000), 200000)
+    w_cond, w_dir = (0.45, 0.30) if ctx.tier == "quick" else (0.60, 0.20)
+
+    def batch(k: int) -> list[dict]:
+        out: list[dict] = []
+        for _ in range(k):
+            r = ctx.rng.random()
+            if r < w_cond:
+                out.append(gen_cond_case(ctx.rng, mw))
+            elif r < w_cond + w_dir:
+                out += directed_cond_cases(ctx.rng, mw, 1)
+            else:
+                out.append(gen_event_case(ctx.rng, mt, mo))
+        return out
+
+    corpus = [c for c in load_corpus("C11")]
+    if corpus:
+        run_cases(corpus, res)
+    done = 0
+    while done < n_total and ctx.time_left() > 0:
+        k = min(400, n_total - done)
+        run_cases(batch(k), res)
+        done += k
+    if ctx.tier == "thorough" and ctx.budget == 1.0 and ctx.time_left() > 0:
+        enum = list(enum_directed(mw))
+        for i in range(0, len(enum), 400):
+            run_cases(enum[i: i + 400], res)
+        res.stats["enumerated_directed_timings"] = len(enum)
     return res
 
 
